@@ -559,7 +559,6 @@ def r13_5(rep, M, rid):
     """the distance record a cluster works with is this call's get_distances(system_copy, radii)"""
     from . import c01
     GC = "matid.clustering.sbc.SBC.get_clusters"
-    c01.call_local_state(rep, M, rid, GC)
     fl = Flow(M.func(GC))
     gd = M.calls_to(GC, "matid.geometry.geometry.get_distances")
     for call in M.calls_to(GC, CLUSTER + ".__init__") + M.calls_to(GC, "matid.clustering.sbc.SBC._merge_clusters") + \
@@ -608,10 +607,11 @@ def run(rep, ctx):
     rep.rule("R13.5", "the distance record of the clusters is computed in the same get_clusters call with the same radii (nothing carried between calls)")
     with rep.guard("R13.5"):
         r13_5(rep, M, "R13.5")
-    rep.rule("R13.6", "the geometry helpers both evaluations rest on (get_dimensionality, get_radii, get_distances, displacement-tensor wrapper, clustering) satisfy their own rules (shared with C09/C10/C19)")
+    rep.rule("R13.6", "where the two evaluations differ - cached matrix from get_distances vs the 1x evaluation inside get_dimensionality, per-atom radii vs resolved preset - "
+             "the helpers satisfy their own rules (shared with C09/C10/C19; what both evaluations share, e.g. the 2x supercell step, cannot make them disagree and is not included)")
     with rep.guard("R13.6"):
         from . import shared as _sh
-        _sh.dimensionality(rep, ctx.model, "R13.6")
+        _sh.dimensionality_first_evaluation(rep, ctx.model, "R13.6")
         _sh.radii(rep, ctx.model, "R13.6")
         _sh.distances(rep, ctx.model, "R13.6")
     rep.floor("R13.1", 1)
